@@ -5,7 +5,7 @@
    (open / hash_check(quick or full) / hash_stop / close), scheduler ticks and hash-result
    deliveries in any order. *)
 From Coq Require Import List NArith Bool Arith.
-From LTV.C09 Require Import Model Proofs ProofsA ProofsB ProofsC.
+From LTV.C09 Require Import ParamsGen Model Proofs ProofsA ProofsB ProofsC.
 Import ListNotations.
 
 (* constants re-extracted from the source satisfy the side conditions *)
@@ -80,9 +80,11 @@ Example stop_releases_nonvacuous :
   map n_refs (s_nodes (do_stop s)) = [0; 0] /\ s_ranges (do_stop s) = [true; true].
 Proof. vm_compute. repeat split; reflexivity. Qed.
 
-(* a legal call sequence answered with internal_error (confirmed on the implementation) *)
-Theorem recheck_before_notification_refuted :
+(* a legal call sequence answered with internal_error (confirmed on the implementation) for as long
+   as HashTorrent::start does not erase a stale m_delay_checked (re-extracted from the source) *)
+Theorem recheck_stale_delay_timer_refuted :
+  (Params.c09_start_erases_delay =? 0)%N = true ->
   exists (fs : list fnode) (ops : list op),
     s_ierr (run (fun b => b) 1100%N (fun _ => []) ops (init fs)) = true.
-Proof. exact ProofsC.recheck_before_notification_refuted. Qed.
-Print Assumptions recheck_before_notification_refuted.
+Proof. exact ProofsC.recheck_stale_delay_timer_refuted. Qed.
+Print Assumptions recheck_stale_delay_timer_refuted.
